@@ -88,6 +88,20 @@ func (p *Proc) Send(c any) error {
 	return err
 }
 
+// WaitBegin reads until the child reports that it has started executing the most recently sent command (its signal
+// handlers are installed by then). Returns false if the child died first.
+func (p *Proc) WaitBegin() bool {
+	for {
+		line, err := p.out.ReadString('\n')
+		if strings.HasPrefix(strings.TrimSpace(line), "BEGIN ") {
+			return true
+		}
+		if err != nil {
+			return false
+		}
+	}
+}
+
 // Wait reads until the ACK of the most recently sent command (or child death).
 func (p *Proc) Wait() Reply {
 	var r Reply
@@ -124,10 +138,15 @@ func (p *Proc) Wait() Reply {
 		if err != nil {
 			p.dead = true
 			r.Crashed = true
+			exit := ""
 			if !p.noWait {
-				_ = p.Cmd.Wait()
+				if werr := p.Cmd.Wait(); werr != nil {
+					exit = "[child exit: " + werr.Error() + "] "
+				} else {
+					exit = "[child exit: status 0] "
+				}
 			}
-			s := p.stderr.String()
+			s := exit + p.stderr.String()
 			if len(s) > 3000 {
 				s = s[:1500] + "\n...\n" + s[len(s)-1500:]
 			}
